@@ -156,6 +156,12 @@ func NewMerkleBlock(block *bchutil.Block, filter *Filter) (*wire.MsgMerkleBlock,
 		mBlock.allHashes = append(mBlock.allHashes, tx.Hash())
 	}
 
+	// A block without transactions has no merkle tree to traverse (the
+	// traversal below would index the empty hash list and panic).
+	if numTx == 0 {
+		return &wire.MsgMerkleBlock{Header: block.MsgBlock().Header}, matchedIndices
+	}
+
 	// Calculate the number of merkle branches (height) in the tree.
 	height := uint32(0)
 	for mBlock.calcTreeWidth(height) > 1 {
